@@ -18,6 +18,16 @@ fn a64(s: &str) -> [u8; 64] { let v = hex(s); let mut a = [0u8; 64]; a.copy_from
 fn sc_bits(s: &str) -> Scalar { Scalar::from_bits(a32(s)) }
 fn opt(p: Option<EdwardsPoint>) -> String { match p { Some(q) => hx(q.compress().as_bytes()), None => "NONE".into() } }
 
+/// rng that hands out the given 32 bytes (then repeats): makes the secret of Ephemeral/ReusableSecret a chosen value
+struct FixedRng([u8; 32], usize);
+impl rand_core::RngCore for FixedRng {
+    fn next_u32(&mut self) -> u32 { let mut b = [0u8; 4]; self.fill_bytes(&mut b); u32::from_le_bytes(b) }
+    fn next_u64(&mut self) -> u64 { let mut b = [0u8; 8]; self.fill_bytes(&mut b); u64::from_le_bytes(b) }
+    fn fill_bytes(&mut self, dest: &mut [u8]) { for d in dest.iter_mut() { *d = self.0[self.1 % 32]; self.1 += 1; } }
+    fn try_fill_bytes(&mut self, dest: &mut [u8]) -> Result<(), rand_core::Error> { self.fill_bytes(dest); Ok(()) }
+}
+impl rand_core::CryptoRng for FixedRng {}
+
 fn run(line: &str) -> String {
     let t: Vec<&str> = line.split_whitespace().collect();
     match t[0] {
@@ -52,6 +62,8 @@ fn run(line: &str) -> String {
         "mont.mul_base_clamped" => hx(MontgomeryPoint::mul_base_clamped(a32(t[1])).as_bytes()),
         "x25519" => hx(&x25519_dalek::x25519(a32(t[1]), a32(t[2]))),
         "x25519.static_dh" => { let s = x25519_dalek::StaticSecret::from(a32(t[1])); let pk = x25519_dalek::PublicKey::from(a32(t[2])); let ss = s.diffie_hellman(&pk); format!("{} {}", hx(ss.as_bytes()), ss.was_contributory() as u8) }
+        "x25519.ephemeral_dh" => { let s = x25519_dalek::EphemeralSecret::random_from_rng(FixedRng(a32(t[1]), 0)); let me = x25519_dalek::PublicKey::from(&s); let pk = x25519_dalek::PublicKey::from(a32(t[2])); let ss = s.diffie_hellman(&pk); format!("{} {} {}", hx(ss.as_bytes()), ss.was_contributory() as u8, hx(me.as_bytes())) }
+        "x25519.reusable_dh" => { let s = x25519_dalek::ReusableSecret::random_from_rng(FixedRng(a32(t[1]), 0)); let me = x25519_dalek::PublicKey::from(&s); let pk = x25519_dalek::PublicKey::from(a32(t[2])); let ss = s.diffie_hellman(&pk); let ss2 = s.diffie_hellman(&pk); format!("{} {} {} {}", hx(ss.as_bytes()), ss.was_contributory() as u8, hx(me.as_bytes()), (ss.as_bytes() == ss2.as_bytes()) as u8) }
         "x25519.public" => { let s = x25519_dalek::StaticSecret::from(a32(t[1])); hx(x25519_dalek::PublicKey::from(&s).as_bytes()) }
         // ---- serde through real bincode (fixed-int little-endian): tuples of 32 u8 for the curve types, length-prefixed bytes for the ed25519 types
         "serde.ed_de" => match bincode::deserialize::<EdwardsPoint>(&hex(t[1])) { Ok(p) => hx(p.compress().as_bytes()), Err(_) => "ERR".into() },
